@@ -214,3 +214,59 @@ Example ex_name :
   /\ corr_chunks [2; 1]%nat [3]%nat [4; 2]%nat = ([2; 1], [3], [6])%nat
   /\ corr_chunks [2; 1]%nat [3]%nat [6]%nat = ([2; 1], [3], [6])%nat.
 Proof. vm_compute. repeat split. Qed.
+
+(* ------------------------------------------------------------------ chunks on the baseline axis of the DATA
+   The corrections array has one chunk on the baseline axis (corr_chunks); when the stored array has several,
+   da.core.elemwise unifies the chunks: the corrections are cut at the data's baseline chunk boundaries and the
+   kernel runs on matching pieces, which are then concatenated.  For one (dump, channel) row: *)
+From KV Require Import Model.Applycal.
+Definition row_by_chunks {A} (kernel : A -> C -> A) (bch : list nat) (d : list A) (f : list C) : list A :=
+  flat_map (fun o => map2 kernel (sub (fst o) (snd o) d) (sub (fst o) (snd o) f)) (offsets 0 bch).
+
+Lemma firstn_add' : forall {A} n m (l : list A), firstn (n + m) l = firstn n l ++ firstn m (skipn n l).
+Proof.
+  induction n as [|n IH]; intros m l; [reflexivity|]. destruct l as [|x l]; cbn [Nat.add firstn skipn app].
+  - now rewrite firstn_nil.
+  - now rewrite IH.
+Qed.
+Lemma skipn_add' : forall {A} s n (l : list A), skipn (s + n) l = skipn n (skipn s l).
+Proof.
+  induction s as [|s IH]; intros n l; [reflexivity|]. destruct l as [|x l]; cbn [Nat.add skipn].
+  - now rewrite skipn_nil.
+  - apply IH.
+Qed.
+Lemma sub_split : forall {A} s n m (l : list A), sub s (n + m) l = sub s n l ++ sub (s + n) m l.
+Proof. intros. unfold sub. now rewrite firstn_add', skipn_add'. Qed.
+Lemma map2_app : forall {A B D} (k : A -> B -> D) a1 a2 b1 b2, List.length a1 = List.length b1 ->
+  map2 k (a1 ++ a2) (b1 ++ b2) = map2 k a1 b1 ++ map2 k a2 b2.
+Proof.
+  induction a1 as [|x a1 IH]; destruct b1 as [|y b1]; cbn; intros; try discriminate; [reflexivity|].
+  f_equal. apply IH. lia.
+Qed.
+Lemma sub_length_eq : forall {A B} s n (d : list A) (f : list B), List.length d = List.length f ->
+  List.length (sub s n d) = List.length (sub s n f).
+Proof. intros. unfold sub. rewrite !firstn_length, !skipn_length. lia. Qed.
+
+Lemma row_by_chunks_from : forall {A} (kernel : A -> C -> A) bch s d f, List.length d = List.length f ->
+  flat_map (fun o => map2 kernel (sub (fst o) (snd o) d) (sub (fst o) (snd o) f)) (offsets s bch)
+  = map2 kernel (sub s (sum_nat bch) d) (sub s (sum_nat bch) f).
+Proof.
+  induction bch as [|n r IH]; intros s d f L.
+  - cbn. unfold sub. reflexivity.
+  - cbn [offsets flat_map fst snd sum_nat fold_right]. fold (sum_nat r).
+    rewrite IH by exact L. rewrite !sub_split. rewrite map2_app; [reflexivity|]. now apply sub_length_eq.
+Qed.
+
+(* ANY decomposition of the baseline axis gives the row computed in one piece *)
+Lemma row_by_chunks_whole : forall {A} (kernel : A -> C -> A) bch d f,
+  List.length d = sum_nat bch -> List.length f = sum_nat bch ->
+  row_by_chunks kernel bch d f = map2 kernel d f.
+Proof.
+  intros A kernel bch d f Ld Lf. unfold row_by_chunks. rewrite row_by_chunks_from by congruence.
+  unfold sub. cbn [skipn]. rewrite <- Ld at 1. rewrite <- Lf. now rewrite !firstn_all.
+Qed.
+
+Example ex_row_chunks :
+  row_by_chunks (fun (d : Z) (f : C) => if is_nan f then (d + 100)%Z else d) [2; 1]%nat [1; 2; 3]%Z
+                [Cone; CNaN; CNaN] = [1; 102; 103]%Z.
+Proof. reflexivity. Qed.
